@@ -17,6 +17,18 @@ CHECKS = {
    text='For every family member z3 decides that no source-feasible assignment leaves a published variable range or a range derived by BoundsAnalyzer (default and max_steps 0..3), and that no point of the derived box takes a sub-expression outside the range bounds_of reports. Includes non-dyadic constants (1.9, 1/3, 0.1) for float-noise rounding of integer bounds.',
    note='Ranges are read through the verif-hooks accessors. Margin eps=1e-7 relative on continuous bounds, none on integer bounds. Outside: propagation chains longer than the family has.',
    ref='DESIGN §3 C07'),
+ 'C05': dict(cat=TV, tech='real solver entry points run on an enumerated family of small LP/MILP models; z3 (exact rational LRA/LIA) decides optimality for all points, infeasibility, and existence of an improving recession direction',
+   text='For every L(n,m) model and every built-in entry point that accepts it, z3 is the exact oracle: a returned optimum is optimal over ALL feasible points (unsat query), an infeasible verdict means the model is unsatisfiable, an unbounded verdict needs a feasible point and an improving ray; simplex-based solvers must answer with Ok/Infeasible/Unbounded only (a solver that does not return within 3 s is reported as a hang).',
+   note='The solver run itself is concrete (third-party numerical code cannot be executed symbolically); the quantified part is the oracle query. Tolerance 1e-6 relative (1e-4 for Clarabel). Known findings about microlp 0.5 / Clarabel status mapping are listed in known_findings.txt.',
+   ref='DESIGN §3 C05'),
+ 'C13': dict(cat=TV, tech='SMT translation validation (z3, exists/forall LRA) of the real standard-form conversion + Kani proofs of the row-normalisation kernels',
+   text='For every continuous L(n,m) model the real into_standard_form output is read through the verif-hooks accessor; z3 decides that every original feasible point has a standard-form preimage with the related objective value and that every standard-form point (y>=0, Ay=b) maps back to an original feasible point, for ALL points; rhs>=0 and equality shape are checked exactly.',
+   note='Objective relation as used by OptimalTableau::optimal_value (original = -/+ standard + offset). Family includes tolerance-probe right-hand sides (+-2^-20, +-2^-10).',
+   ref='DESIGN §3 C13'),
+ 'C14': dict(cat=TV, tech='SMT validation (z3 LRA) of every real simplex tableau along real pivot traces + (thorough) Kani proof of one Tableau::step from an arbitrary canonical 2x3 tableau',
+   text='For every standard-form problem from the L family the driver records the real trace of Tableau::step; z3 decides per step, in both directions and for all points of a box, that the equation system and objective row are preserved, that the starting tableau (incl. two-phase start) describes the standard form, and that the final tableau is optimal over all feasible points (or the unbounded report has a feasible point and an improving ray). Unit basis columns, b>=0 and monotone objective are evaluated on each concrete tableau.',
+   note='Tolerance-aware (1e-6 relative inside |y|<=10) because traces contain rounded floats. The symbolic-tableau inductive step (Kani) is in the thorough tier only (about 13 min / 10 GB).',
+   ref='DESIGN §3 C14'),
 }
 NA = {
  'C04': 'no value quantifier: every clause evaluates one returned point; the solver bridges (microlp, Clarabel, IndexMap) cannot be executed symbolically (DESIGN §3 C04); its premises are still evaluated inside C03/C05/C15',
